@@ -285,9 +285,11 @@ fn walk_all(it: &mut ModuleIterator) -> Vec<Visit> {
 fn walk_all_instrumenting(it: &mut ModuleIterator) -> Vec<Visit> {
     let mut v = vec![];
     loop {
-        if let (Location::Module { func_idx, instr_idx }, _) = it.curr_loc() {
+        if let (Location::Module { func_idx, instr_idx }, at_end) = it.curr_loc() {
             let other = Location::Module { func_idx, instr_idx: if instr_idx == 0 { 1 } else { 0 } };
-            if v.len() % 3 != 2 {
+            if at_end && instr_idx == 0 {
+                // a body that is only the final `end` has no other instruction to name
+            } else if v.len() % 3 != 2 {
                 it.before_at(other);
             } else {
                 it.after_at(other);
